@@ -36,7 +36,7 @@ type c18form struct {
 type c18cost []c18form // alternatives: the value is the maximum over them
 
 func c18const(n int) c18cost { return c18cost{{c: n}} }
-func c18u() c18cost         { return c18cost{{u: 1}} }
+func c18u() c18cost          { return c18cost{{u: 1}} }
 func c18sym(s string) c18cost {
 	return c18cost{{sym: map[string]int{s: 1}}}
 }
@@ -1265,7 +1265,7 @@ func c18sizes(c *Ctx, m *Module) {
 		return
 	}
 	header := func(v int) c18cost {
-		h := c18const(4 + 2 + 2 + 4 + 2).plus(c18sym("clientID"), 1)
+		h := c18const(4+2+2+4+2).plus(c18sym("clientID"), 1)
 		if v >= 9 {
 			h = h.plus(c18const(1), 1)
 		}
